@@ -16,7 +16,8 @@ Tie: the flat class handed to `annotate_states` (captured at that stage boundary
 annotated) is serialised — symbol table + the whole AST as a rose tree in TreeWalker order — and
 sent to the Lean model `PymocaVerif.Model.Classify` (driver `drv_c10`), whose nine lists must be
 equal to the implementation's; in the annotate-only stream the prefix lists after annotation (or
-the AssertionError) must be equal.
+the AssertionError) must be equal; for generated files the prefixes `flatten_symbols` left on every
+declared variable (elementary or derived type, nested or not) must equal the model's `flatPrefixes`.
 """
 import json
 
@@ -666,6 +667,19 @@ def check_case(ctx, case, drv):
             if raised is None:
                 ctx.tie_broken("c10:stage-boundary", "generate() did not call tree.annotate_states")
             return got
+        if kind == "text":
+            # the prefixes flatten_symbols left on every declared variable vs the model's `flatPrefixes`
+            real = {x["name"]: x["prefixes"] for x in store[0]["symbols"]}
+            vs = [v for v in desc["vars"] if v["name"] in real]
+            fa = drv.ask({"op": "flatprefixes", "items": [
+                {"inst": v["name"][:v["name"].rfind(".") + 1], "derived": bool(v.get("derived")),
+                 "prefixes": v["prefixes"]} for v in vs]})
+            if not fa.get("ok"):
+                raise HarnessError("drv_c10 rejected flatprefixes: %s" % fa)
+            for v, mp in zip(vs, fa["prefixes"]):
+                if mp != real[v["name"]]:
+                    ctx.disagreement("flatten.prefixes", case, {v["name"]: mp}, {v["name"]: real[v["name"]]})
+                    break
         ans = drv.ask(dict(model_request(store[0]), op="classify"))
         if not ans.get("ok"):
             raise HarnessError("drv_c10 rejected the case: %s" % ans)
@@ -767,6 +781,7 @@ def buckets(ctx, case, got):
 
 def run(ctx):
     drv = ctx.driver("drv_c10")
+    ctx.extra["lean_results"] = LEAN_RESULTS
     from harness import corpus
     for c in corpus.load("C10"):
         ctx.count("corpus")
@@ -796,11 +811,21 @@ def replay(ctx, payload):
     check_case(ctx, payload["case"], ctx.driver("drv_c10"))
 
 
+LEAN_RESULTS = [
+    "der_found_anywhere / annotate_state_iff / annotate_fails_iff: the counter-driven StateAnnotator marks exactly the symbols referenced below a der() at any depth",
+    "partition / exactly_one: the category lists are a permutation of the non-empty symbols; with distinct names nothing is listed twice",
+    "precedence: constant, parameter, input, state, algebraic — first match; String constants/parameters in the string lists",
+    "order_preserved: every list is a subsequence of the symbols stably sorted by declaration order",
+    "one_derivative_per_state, outputs_exact, attribute_error_iff (C10-F1), states_iff_differentiated (end to end)",
+    "nested_io_stripped / input_output_only_at_top_level: flatten_symbols removes input/output from symbols of nested instances whatever the kind of their type (elementary or derived), so they are never classified as top-level inputs nor listed as outputs",
+]
+
 MANIFEST = dict(
     level_text="Lean 4 theorems about an executable model of StateAnnotator (a counter-driven listener over the walk "
                "events, proved equal to the structural 'referenced under der at any depth' specification) and of "
                "Generator.exitClass (stable sort by declaration order, first-match category split, String lists, "
-               "derivative names, outputs): partition (the category lists are a permutation of the non-empty symbols), "
+               "derivative names, outputs) and of the input/output stripping of flatten_symbols for nested instances (elementary "
+               "and derived types): partition (the category lists are a permutation of the non-empty symbols), "
                "precedence, order preservation, one derivative per state, exact outputs; all for arbitrary symbol "
                "tables and trees. Tied to the real code on every run by a differential correspondence on the real flat "
                "AST captured at the annotate_states stage boundary (generated Modelica files, hand-built flat classes "
